@@ -32,7 +32,7 @@ def generate(run_seed, tier):
     elif k < 0.78:
         r = ["tok", wl.choice(cc.TOKS)]
     elif k < 0.80:
-        r = ["Any"]
+        r = ["Any"] if wl.random() < 0.2 else cc.shorthand_leaf(wl, neg)
     elif k < 0.90:
         n = wl.randint(0, 3)
         args = [cc.arg(wl, pal, 0.2) for _ in range(n)]
